@@ -43,7 +43,7 @@ let parse_sexp (s : string) : sexp list =
   r
 
 let atom_int = function A a -> int_of_string a | L _ -> failwith "int expected"
-let text_of (l : sexp list) : text = List.map (fun x -> n_of_int (atom_int x)) l
+let text_of (l : sexp list) : n list = List.map (fun x -> n_of_int (atom_int x)) l
 let opt_z = function A "_" -> None | x -> Some (z_of_int (atom_int x))
 let opt_n = function [] -> None | [x] -> Some (n_of_int (atom_int x)) | _ -> failwith "tag"
 
